@@ -12,6 +12,8 @@ NOTES = {
     "C14-A": "manifests only on streams outside C14's stated domain (aborted / oversized sysex); caught by C06, which quantifies over all byte streams",
     "C14-C": "manifests only on streams outside C14's stated domain; caught by C06",
     "C19-D": "needs 100 or more consecutive empty reads of the source: deliberately outside the domain the C19 monitor drives (an io.Reader may return 0, nil only occasionally)",
+    "C06-H": "thorough tier only: needs one sysex with more than 2^32 data bytes (about 20 s of CPU; C06 'sysex-beyond-2^32-bytes', confirmed against the change)",
+    "C19-G": "a package-level scratch buffer shared by the Send of two out-ports of the process-backed driver: outside C19's domain (the line format and its reader); caught by C17 (race detector report and torn lines)",
     "C17-F": "detection depends on which helper process dies first: violated (Send fails) in most runs, otherwise inconclusive (probe never observed), never 'held'",
 }
 
